@@ -95,6 +95,15 @@ def run_history(cf, steps, pc_id, M, from_decoded=False, lazy=False):
         else:
             msg = cls()
         assoc = dg.make_assoc(M, lazy)
+        if (pc_id + M) % 2 == 0 and (cf & 0x8000) and (cf & 0x7FFF) in dimsemessages.MESSAGE_TYPE:
+            # the association has a history: the request this response answers was received on it (through the public
+            # receive()), with a message ID of its own
+            rq = dimsemessages.MESSAGE_TYPE[cf & 0x7FFF]()
+            rq.message_id = 4242
+            assoc.dul.inbox.append((rq, pc_id))
+            got_rq, got_pc = assoc.receive()
+            if got_rq is not rq or got_pc != pc_id:
+                raise HarnessError('recorder: receive() returned %r' % ((got_rq, got_pc),))
         if (pc_id + M) % 3 == 0:
             dg.provoke_encode_failure()     # an earlier, unrelated encoding error in this thread
         current = {}
